@@ -3,4 +3,5 @@ import McpModel.Base.Proto
 import McpModel.EventStore.Props
 import McpModel.EventStore.Driver
 import McpModel.Resume.Props
+import McpModel.Resume.Witness
 import McpModel.Resume.Driver
